@@ -1,6 +1,6 @@
 (* C04 — property theorems (statements only; proofs live in Proofs*.v). *)
 From Coq Require Import ZArith QArith Qround Bool List.
-Require Import QV.C04.Model QV.C04.Spec QV.C04.Proofs QV.C04.Proofs2 QV.C04.Proofs3.
+Require Import QV.C04.Model QV.C04.Spec QV.C04.Proofs QV.C04.Proofs2 QV.C04.Proofs4 QV.C04.Proofs3.
 Import ListNotations.
 Open Scope Q_scope.
 
@@ -70,6 +70,62 @@ Theorem C04_agree_denoted : forall p e d v o,
   end.
 Proof. exact agree_den. Qed.
 Print Assumptions C04_agree_denoted.
+
+(* THE property, tight guard: whenever the binary and the decimal reading of the code's comparisons build the same
+   program (g_view: the quantifier's "ints or short decimals") and none of the four modelled finding classes is met
+   (cp ideal accepts), the code accepts and all four views equal the symbolic duration; no `den` involved *)
+Theorem C04_agree : forall p e v,
+  guard_C04 p e = true -> sym p (decimalize e) = Ok v ->
+  exists o, create_program real p e = Ok o /\
+  match o with
+  | None => time_of v == 0
+  | Some prog => loop_duration prog == time_of v
+                 /\ (exists q, wf_duration prog = Some q /\ q == time_of v)
+                 /\ sum_pieces 1 prog == time_of v
+  end.
+Proof. exact agree_tight. Qed.
+Print Assumptions C04_agree.
+
+(* the ghost switches only add `EFinding` errors: what `ideal` accepts the code (decimal reading) accepts with the
+   same program, and whatever the code accepts `ideal` accepts or names the finding class it met *)
+Theorem C04_guard_refines : forall p e kids, cp ideal p e = Ok kids -> cp lax p e = Ok kids.
+Proof. exact ideal_refines. Qed.
+Print Assumptions C04_guard_refines.
+Theorem C04_guard_exact : forall p e kids,
+  cp lax p e = Ok kids -> is_ok (cp ideal p e) = true \/ exists k, cp ideal p e = Err (EFinding k).
+Proof. exact guard_exact. Qed.
+Print Assumptions C04_guard_exact.
+
+(* without the guard the faithful model of the unchanged code violates the property: one witness per class; exactly
+   the class's own guard (g_view, negative count, negative duration, near-integer, unequal parallel parts) is false *)
+Theorem C04_agree_refuted_negative_count : disagrees w_negcount /\ guards_of w_negcount = [true; false; true; true; true; false].
+Proof. exact refuted_negcount. Qed.
+Print Assumptions C04_agree_refuted_negative_count.
+Theorem C04_agree_refuted_negative_duration : disagrees w_negdur /\ guards_of w_negdur = [true; true; false; true; true; false].
+Proof. exact refuted_negdur. Qed.
+Print Assumptions C04_agree_refuted_negative_duration.
+Theorem C04_agree_refuted_near_integer : disagrees w_nearint /\ guards_of w_nearint = [true; true; true; false; true; false].
+Proof. exact refuted_nearint. Qed.
+Print Assumptions C04_agree_refuted_near_integer.
+Theorem C04_agree_refuted_parallel_unequal : disagrees w_parallel /\ guards_of w_parallel = [true; true; true; true; false; false].
+Proof. exact refuted_parallel. Qed.
+Print Assumptions C04_agree_refuted_parallel_unequal.
+Theorem C04_agree_refuted_binary_reading : disagrees w_view /\ guards_of w_view = [false; true; true; true; true; false].
+Proof. exact refuted_view. Qed.
+Print Assumptions C04_agree_refuted_binary_reading.
+
+(* the hypotheses are satisfiable by non-trivial inputs: a float parameter (0.1) with 1e6 repetitions; a for-loop with
+   negative step whose body (repetition i times, table, atomic arithmetic) depends on the index *)
+Theorem C04_example_guard_satisfiable :
+  guard_C04 ex_tpl ex_env = true /\ guards_of (ex_tpl, ex_env) = [true; true; true; true; true; true]
+  /\ exists v, sym ex_tpl (decimalize ex_env) = Ok v /\ time_of v == 3000001 # 10.
+Proof. exact example_guard. Qed.
+Print Assumptions C04_example_guard_satisfiable.
+Theorem C04_example_for_loop_negative_step :
+  guard_C04 ex_for ex_for_env = true /\ guards_of (ex_for, ex_for_env) = [true; true; true; true; true; true]
+  /\ exists v, sym ex_for (decimalize ex_for_env) = Ok v /\ time_of v == 9 # 2.
+Proof. exact example_for_guard. Qed.
+Print Assumptions C04_example_for_loop_negative_step.
 
 Theorem C04_example_for_loop_guard_satisfiable :
   (exists d, den ex_for (qenv_of ex_for_env) = Some d /\ d == 9 # 2)
